@@ -2,7 +2,7 @@
 
 PROPS = {
     "C07": {
-        "units": {"kani": ["c07_sha256"]},
+        "units": {"kani": ["c07_sha256", "c07_sha512", "c07_ripemd160"]},
         "scope": "off-circuit spread/limb kernels of the SHA-256, SHA-512 and RIPEMD-160 chips (table contents and every witness limb are computed by them)",
         "not_decided": ["all in-circuit constraint emission, table wiring, message schedule, padding, varlen selection",
                         "Poseidon (chip, cpu, round skips), Keccak/SHA3, BLAKE2b"],
@@ -14,10 +14,34 @@ PROPS = {
         "design_ref": "DESIGN.md section 5, C07",
     },
 }
+PROPS["C12"] = {
+    "units": {"kani": ["c12_booth", "c12_bitreverse"]},
+    "scope": "the signed-digit (Booth) recoding consumed by every Rust MSM path, the bit-reversal permutation of best_fft, and the chunking arithmetic that makes results independent of the thread count",
+    "not_decided": ["bucket / batch-affine / Schedule logic and the butterflies (generic over curve and field traits, iterator adapters)",
+                    "msm_specific / multi_exp (blst)", "EvaluationDomain algebra (generic + rayon)"],
+    "trusted_base": [],
+    "assumptions": [],
+    "claim": "Proof for the arithmetic kernels only: get_booth_index returns exactly the radix-2^c Booth digit for every 32-byte scalar, every window size 1..24 and every window (so the digits consumed by msm_serial/msm_best sum to the scalar), and best_fft's bitreverse is the bit-reversal involution for every n and every l <= 64. The bucket accumulation, butterflies and domain algebra are NOT decided.",
+    "level_note": "Kani/CBMC over the full input domain (loops bounded by 32 bytes / 64 bits, unwinding assertions on); bitreverse is a nested fn and is extracted verbatim into a stand-alone crate each run (enclosing function dropped). Trusted: Kani+CBMC, rustc MIR.",
+    "technique": "Kani function contract on get_booth_index + full-domain harnesses; Verus integer lemmas (contract-based deductive verification)",
+    "design_ref": "DESIGN.md section 5, C12",
+}
+PROPS["C19"] = {
+    "units": {"kani": ["c19_base64"]},
+    "scope": "the base64 alphabet table and the derived two-character lookup table used by the in-circuit base64 chip",
+    "not_decided": ["regex -> automaton pipeline (determinisation, minimisation, complement, marker-aware intersection over hash sets)",
+                    "the in-circuit parser and base64 chip", "shipped serialized automata", "decode_char (lazy_static HashMap)"],
+    "trusted_base": [],
+    "assumptions": [],
+    "claim": "Proof for the base64 alphabet kernel only: BASE64_TABLE is exactly the RFC 4648 section 4 alphabet (a bijection onto 0..64) and two_entry_table is exactly the pairwise product table (all 4096 keys distinct, default key decodes to 0). The regex/automaton pipeline and the in-circuit parser/base64 chip are NOT decided: they are whole-language properties with no per-function contract within reach.",
+    "level_note": "Kani/CBMC with symbolic indices over the real constant and the real table-construction function; trusted: Kani+CBMC, rustc MIR. Thin by admission.",
+    "technique": "Kani full-domain harnesses against a range-defined RFC 4648 spec (contract-based deductive verification)",
+    "design_ref": "DESIGN.md section 5, C19",
+}
 
 # claimed in DESIGN.md, machinery not built yet in this revision
 PENDING = {}
-for _p in ("C05", "C06", "C10", "C11", "C12", "C16", "C19"):
+for _p in ("C05", "C06", "C10", "C11", "C16"):
     PENDING[_p] = "planned in DESIGN.md section 5 but the check is not built yet in this revision; not claimed until it is"
 
 NOT_APPLICABLE = {
